@@ -12,6 +12,11 @@
 //   its                    iterators kept since the insertion of still-living entries, re-dereferenced now:
 //                          [serial at insertion, serial designated now, 1 if &value unchanged]
 //   lt                     instance registry counters (J_LIFETIME)
+//   C04: every entry tuple has a fifth component, the serial of the stored key instance (= the value serial for a HashSet);
+//        ov[j] = instances an empty container object of variable j's class owns by itself (measured at start-up: its end
+//        sentinel), ld = held key/value instances that the registry does not list as alive, q = live instances at the
+//        quiescent point of "fini" (everything destroyed), -1 otherwise
+// "fini <i>" destroys both variables, records the number of live instances, and recreates them as default HashMaps.
 // Not called (they do not compile when instantiated with T != V): HashMap::front() const / back() const,
 // PoolMap::front() const / back() const.  The non-const front()/back() are used.
 #include "drv.h"
@@ -49,7 +54,23 @@ static void createVar(int i, int kind, long cap)
   else if(kind == K_SET) V[i].s = cap < 0 ? new TSet : new TSet((usize)cap);
   else V[i].p = cap < 0 ? new TPool : new TPool((usize)cap);
 }
-void drv_init(int, char**) { g_op_timeout = 8; V[1].m = V[2].m = 0; V[1].s = V[2].s = 0; V[1].p = V[2].p = 0; trk_reset_registry(); }
+static long g_ov[3] = {0, 0, 0};     // instances owned by an empty container of each class
+static long g_ld = 0, g_q = -1;
+static int aliveT(const Tracked& t) { return t.magic == 0x600DF00Du && t.serial > 0 && t.serial < trk_next && trk_state[t.serial] == 1; }
+static int aliveN(const NoCopy& t) { return t.magic == 0x600DF00Du && t.serial > 0 && t.serial < trk_next && trk_state[t.serial] == 1; }
+void drv_init(int, char**)
+{
+  g_op_timeout = 8; V[1].m = V[2].m = 0; V[1].s = V[2].s = 0; V[1].p = V[2].p = 0; trk_reset_registry();
+  for(int k = 0; k < 3; ++k)
+  { // measure what an empty container object owns (created and destroyed again: the balance must return to zero)
+    long before = trk_live();
+    createVar(1, k, 3);
+    g_ov[k] = trk_live() - before;
+    destroyVar(1);
+    if(trk_live() != before) g_ov[k] = -1000;
+  }
+  trk_reset_registry();
+}
 void drv_fini() { destroyVar(1); destroyVar(2); nkept = 0; }
 void drv_reset()
 {
@@ -95,9 +116,10 @@ enum { PROJ_MAX = 4096 };
 static long liveSerial[2 * PROJ_MAX];
 static int nlive = 0;
 
-static void emitEntry(long cnt, int k, int v, long serial, const void* a)
+static void emitEntry(long cnt, int k, int v, long serial, const void* a, long kserial, int alive)
 {
-  fprintf(g_out, cnt ? ",[%d,%d,%ld,%d]" : "[%d,%d,%ld,%d]", k, v, serial, addr_id(a));
+  fprintf(g_out, cnt ? ",[%d,%d,%ld,%d,%ld]" : "[%d,%d,%ld,%d,%ld]", k, v, serial, addr_id(a), kserial);
+  if(!alive) ++g_ld;
   if(nlive < 2 * PROJ_MAX) liveSerial[nlive++] = serial;
 }
 static void projectVar(int i)
@@ -106,13 +128,13 @@ static void projectVar(int i)
   fputc('[', g_out);
   if(V[i].kind == K_MAP)
     for(TMap::Iterator it = V[i].m->begin(), end = V[i].m->end(); it != end && cnt < bound; ++it, ++cnt)
-    { const Tracked& t = *it; emitEntry(cnt, it.key().value, t.value, ser(t.serial), &t); }
+    { const Tracked& t = *it; emitEntry(cnt, it.key().value, t.value, ser(t.serial), &t, ser(it.key().serial), aliveT(t) && aliveT(it.key())); }
   else if(V[i].kind == K_SET)
     for(TSet::Iterator it = V[i].s->begin(), end = V[i].s->end(); it != end && cnt < bound; ++it, ++cnt)
-    { const Tracked& t = *it; emitEntry(cnt, t.value, t.value, ser(t.serial), &t); }
+    { const Tracked& t = *it; emitEntry(cnt, t.value, t.value, ser(t.serial), &t, ser(t.serial), aliveT(t)); }
   else
     for(TPool::Iterator it = V[i].p->begin(), end = V[i].p->end(); it != end && cnt < bound; ++it, ++cnt)
-    { const NoCopy& t = *it; emitEntry(cnt, it.key().value, t.value, ser(t.serial), &t); }
+    { const NoCopy& t = *it; emitEntry(cnt, it.key().value, t.value, ser(t.serial), &t, ser(it.key().serial), aliveN(t) && aliveT(it.key())); }
   fputc(']', g_out);
 }
 static void backwardVar(int i)
@@ -146,7 +168,7 @@ static void observe(const char* op, int i, long k, long v, long p, const char* k
   j_begin(op);
   j_int("i", i); j_int("k", k); j_int("v", v); j_int("p", p); j_str("kd", kd); j_int("r", r); j_int("b", b);
   fprintf(g_out, ",\"kind\":[\"%s\",\"%s\"]", kindName[V[1].kind], kindName[V[2].kind]);
-  nlive = 0;
+  nlive = 0; g_ld = 0;
   fputs(",\"c\":[", g_out); projectVar(1); fputc(',', g_out); projectVar(2); fputc(']', g_out);
   fprintf(g_out, ",\"sz\":[%ld,%ld]", varSize(1), varSize(2));
   fprintf(g_out, ",\"em\":[%d,%d]", varEmpty(1), varEmpty(2));
@@ -169,6 +191,8 @@ static void observe(const char* op, int i, long k, long v, long p, const char* k
   }
   nkept = w;
   fputc(']', g_out);
+  fprintf(g_out, ",\"ov\":[%ld,%ld],\"ld\":%ld,\"q\":%ld", g_ov[V[1].kind], g_ov[V[2].kind], g_ld, g_q);
+  g_q = -1;
   J_LIFETIME();
   j_end();
 }
@@ -198,6 +222,15 @@ void drv_apply(const char* op)
     destroyVar(i);
     createVar(i, kind, p);
     observe(op, i, 0, 0, p, kindName[kind], -2, -2);
+    return;
+  }
+  if(!strcmp(op, "fini"))
+  { // destroy everything (lifetime balance for C04), then start again with two default HashMaps
+    drv_fini();
+    g_q = trk_live();
+    createVar(1, K_MAP, -1);
+    createVar(2, K_MAP, -1);
+    observe(op, i, 0, 0, 0, "", -2, -2);
     return;
   }
   if(tok_more()) k = tok_int();
